@@ -317,6 +317,17 @@ def main(argv=None):
       for key, best, evals in pool.map(_shrink_job, todo, chunksize=1):
         shrunk[key] = (best, evals)
 
+  # A case that exceeds the per-case time limit is inconclusive, not an error (a loaded machine is enough
+  # to cause it); many of them, or any other exception, is a harness error.
+  timeouts = [e for e in errors if e['kind'] == 'timeout']
+  n_timeouts = len(timeouts)
+  if timeouts and n_timeouts <= max(2, evaluations // 1000) and n_timeouts == len(errors):
+    os.makedirs(os.path.join(ROOT, 'replays', pid), exist_ok=True)
+    with open(os.path.join(ROOT, 'replays', pid, 'inconclusive_timeout.json'), 'w') as f:
+      json.dump({'property': pid, 'case': timeouts[0]['case'], 'kind': 'timeout'}, f, indent=1)
+    print('INCONCLUSIVE: %d case(s) exceeded the per-case limit of %ds (first saved to replays/%s/inconclusive_timeout.json)' % (
+        n_timeouts, CASE_TIMEOUT_S, pid))
+    errors = []
   if errors:
     os.makedirs(os.path.join(ROOT, 'replays', pid), exist_ok=True)
     p = os.path.join(ROOT, 'replays', pid, 'harness_error.json')
@@ -372,6 +383,7 @@ def main(argv=None):
           'generated_budget': budget,
           'shards': nshards,
           'slowest_case_s': round(slowest[0], 2),
+          'timeouts_inconclusive': n_timeouts,
       },
       'assumptions': list(getattr(mod, 'ASSUMPTIONS', [])),
       'wall_s': round(wall, 2),
